@@ -344,7 +344,7 @@ async def random_schedule(ex, spawn, settle):
             i = to_spawn.pop(0)
             c = Caller(i, rng.randrange(cfg["origins"]), hold=rng.random() < cfg.get("p_hold", 0.3),
                        pool_timeout=cfg.get("pool_timeout"), body=(b"B%d" % i if rng.random() < cfg.get("p_body", 0.0) else None),
-                       mode=rng.choice(cfg.get("modes", ["read"])))
+                       mode=(rng.choice(cfg["modes"]) if cfg.get("modes") else "read"))     # no extra draw without "modes": stored replays stay valid
             ex.callers.append(c)
             spawn(c)
             ex.trace.append(("spawn", i, c.origin, c.hold))
